@@ -12,7 +12,8 @@
 
    Flags (repaired variants, see the C40 files in proposed_fixes):
      fx_float   : safe mode keeps C double only when every assigned type is a float type
-     fx_bint    : safe mode keeps C bint only when the name is not used in arithmetic
+     fx_bint    : safe mode keeps C bint only when the name is not used in arithmetic (else object);
+                  the ~ operator counts as arithmetic for the marking
      fx_closure : arithmetic uses inside inner scopes mark the captured (outer) entry            *)
 From Coq Require Import ZArith List Bool.
 From CyVerif Require Import Lib.CInt.
@@ -96,7 +97,7 @@ Definition safe_span (fx : flags) (types : list ty) (mo : bool) : ty :=
   if is_pyobj r then r
   else match r with
        | TCDouble => if fx_float fx && negb (forallb is_floatty types) then TObj else TCDouble
-       | TCBint => if fx_bint fx && mo then TPyBool else TCBint
+       | TCBint => if fx_bint fx && mo then TObj else TCBint
        | TCLong | TCInt => if mo then TPyInt else r
        | _ => r
        end.
@@ -189,6 +190,7 @@ Fixpoint mark (fx : flags) (flag inner : bool) (e : expr) : list nat :=
   | EBin o a b => if is_bitwise o then mark fx flag inner a ++ mark fx flag inner b
                   else mark fx true inner a ++ mark fx true inner b
   | EUn Neg a => mark fx true inner a
+  | EUn Inv a => mark fx (flag || fx_bint fx) inner a
   | EUn _ a => mark fx flag inner a
   | ECmp a b => mark fx false inner a ++ mark fx false inner b
   | ECond c a b => mark fx false inner c ++ mark fx false inner a ++ mark fx false inner b
@@ -345,11 +347,27 @@ Section Check.
     forallb (fun a => ann_ok (a_rhs a)) (s_assigns s).
 End Check.
 
-(* the model's own run: first pass from "every local is an object", then reinfer() to the fixed
-   point; explicit failure when the fuel runs out or the result is not stable *)
+(* first pass: while an entry is still unspecified, NameNode.infer_type returns the node's own
+   inferred_type (no might_overflow test); assignments are typed from these annotations *)
+Definition first_pass (fx : flags) (m : imode) (T : tables) (s : summary) (D0 : list ty) : list ty :=
+  map (fun x =>
+    match nth x (s_decl s) None with
+    | Some t => t
+    | None =>
+      match m with
+      | MOff => TObj
+      | _ => match inferred_types T s (fun _ => TObj) (fun _ => false) x with
+             | [] => TObj
+             | tys => span_mode fx m tys (mo_of fx s x)
+             end
+      end
+    end) (seq 0 (length D0)).
+
+(* the model's own run: first pass, then reinfer() to the fixed point; explicit failure when the
+   fuel runs out or the result is not stable *)
 Inductive infer_result := Inferred (D : list ty) | NoFixpoint | Unstable (D : list ty).
 Definition infer (fx : flags) (m : imode) (T : tables) (s : summary) (D0 : list ty) : infer_result :=
-  match reinfer_loop fx m T s (S (S (length D0 + length (s_assigns s)))) D0 with
+  match reinfer_loop fx m T s (S (S (length D0 + length (s_assigns s)))) (first_pass fx m T s D0) with
   | None => NoFixpoint
   | Some D => if stable fx T s D m then Inferred D else Unstable D
   end.
